@@ -477,6 +477,18 @@ def _comprehension(ex, node, env, as_set):
     ex.unsupported(node, 'branching inside a comprehension')
   identity = isinstance(node.elt, ast.Name) and isinstance(
       g.target, ast.Name) and node.elt.id == g.target.id
+  img = getattr(elt, 'image_of', None)
+  if as_set and img is not None and isinstance(src, VSet) and not g.ifs:
+    # {seq[x] for x in S}: the image of S under the sequence, as a named term
+    # with its membership definition (pointwise fact)
+    seq = img
+    f = z3.Function('IMG', z3.IntSort(), z3.SetSort(z3.IntSort()),
+                    z3.SetSort(seq.esort))
+    t = f(seq.sid, st)
+    y = z3.Const(ctx.sym('y'), seq.esort)
+    ctx.assume(z3.ForAll([y], z3.IsMember(y, t) == z3.Exists([q], z3.And(
+        z3.IsMember(q, st), seq.at(q) == y))))
+    return VSet(t, seq.esort)
   if identity:
     rset = z3.Lambda([q], z3.And(z3.IsMember(q, st), cond))
     if as_set:
@@ -643,12 +655,18 @@ def _l_append(ex, recv, args, kwargs, node):
     elif isinstance(x, VOpaque):
       recv.esort = x.t.sort()
     elif isinstance(x, VObj):
-      recv.esort = z3.IntSort()
+      recv.esort = ItemSort
     else:
       ex.unsupported(node, 'append of %s' % x.kind)
     recv.at = z3.Function(ctx.sym('lst.at'), z3.IntSort(), recv.esort)
     recv.elems = z3.EmptySet(recv.esort)
-  xt = z3.IntVal(x.oid) if isinstance(x, VObj) else elem_term(x, recv.esort)
+  if isinstance(x, VObj):
+    from mmverif.engine import libcontracts
+    xt = libcontracts.item_term(x)
+    if libcontracts.ITEM_HOOKS['reflect'] is not None:
+      libcontracts.ITEM_HOOKS['reflect'](ctx, x, xt)
+  else:
+    xt = elem_term(x, recv.esort)
   old_at, n = recv.at, recv.length
   new_at = z3.Function(ctx.sym('lst.at'), z3.IntSort(), recv.esort)
   i = z3.Int(ctx.sym('i'))
